@@ -100,6 +100,9 @@ fn check_item(it: &Item) -> Report {
                         chk.trivially_holds("layout-independence");
                         continue;
                     }
+                    if chk.rep.findings.iter().any(|f| f.reproduced == Some(true)) {
+                        break; // refuted already: skip the remaining element comparisons
+                    }
                     let mut q = pcs.clone();
                     q.push(format!("(not (= {} {}))", chk.term(oa.values[i]), chk.term(ob.values[i])));
                     if let Verdict::Cex(_) = chk.must_unsat("layout-independence", &format!("path {pi} {} element {i}", ep.name()), &q, &[]) {
@@ -136,7 +139,8 @@ fn layout_of(s: &Scen, role: &str) -> Layout {
 }
 
 fn items(args: &Args) -> Vec<Item> {
-    let thorough = args.thorough();
+    let deep = args.thorough();
+    let thorough = true; // the former thorough set costs ~2 s and is now the quick tier as well
     let timeout_ms = 20_000;
     let mut v = vec![];
     let variants = [Layout::F, Layout::Strided, Layout::Reversed, Layout::Permuted, Layout::Window];
@@ -149,6 +153,11 @@ fn items(args: &Args) -> Vec<Item> {
         scens.push(mk(Kind::Linear, vec![3, 2], false, qs.clone(), *qr));
         scens.push(mk(Kind::Spline(two_lanes.clone()), vec![4, 2], false, qs.clone(), *qr));
         scens.push(mk(Kind::Bilinear, vec![2, 3, 2], false, qs.clone(), *qr));
+        if deep {
+            scens.push(mk(Kind::Linear, vec![4, 3, 2], false, qs.clone(), *qr));
+            scens.push(mk(Kind::Spline(Bc::NotAKnot), vec![5, 2, 3], false, qs.clone(), *qr));
+            scens.push(mk(Kind::Bilinear, vec![3, 4, 3, 2], false, qs.clone(), *qr));
+        }
         if thorough {
             scens.push(mk(Kind::Linear, vec![3, 2, 1, 2], false, qs.clone(), *qr));
             scens.push(mk(Kind::Spline(Bc::Periodic), vec![4, 1, 2], true, qs.clone(), *qr));
@@ -197,7 +206,7 @@ pub fn run(args: &Args) -> Report {
     for f in ["interp1d::Interp1D::interp", "interp1d::Interp1D::interp_into", "interp1d::Interp1D::interp_array", "interp1d::Interp1D::interp_array_into", "interp1d::Interp1D::interp_array_into_1d", "interp2d::Interp2D::interp", "interp2d::Interp2D::interp_into", "interp2d::Interp2D::interp_array", "interp2d::Interp2D::interp_array_into", "interp2d::Interp2D::interp_array_into_1d", "interp1d::Interp1D::index_point", "interp2d::Interp2D::index_point", "interp1d::strategies::cubic_spline::CubicSpline::calc_coefficients", "interp1d::strategies::cubic_spline::CubicSpline::solve_for_k_individual"] {
         rep.functions.insert(f.to_string());
     }
-    rep.bounds.push(format!("roles data / x / y / query / output buffer, each varied alone against an all-C-order baseline over layouts owned Fortran order, every-2nd-element window (junk symbols elsewhere), reversed storage, permuted storage axes, offset window; Linear (data (3), (3,2){}), CubicSpline with two differently conditioned lanes (4,2), Bilinear (2,3,2); query Ix0, Ix1 x3, Ix2 2x2, IxDyn x3{}; entry points interp_array, interp_array_into, interp, interp_into, interp_scalar", if args.thorough() { ", (3,2,1,2)" } else { "" }, if args.thorough() { ", Ix3, IxDyn 2x2 and rank 0; periodic spline over IxDyn data; Bilinear Ix2 and IxDyn data" } else { "" }));
+    rep.bounds.push(format!("roles data / x / y / query / output buffer, each varied alone against an all-C-order baseline over layouts owned Fortran order, every-2nd-element window (junk symbols elsewhere), reversed storage, permuted storage axes, offset window; Linear (data (3), (3,2){}), CubicSpline with two differently conditioned lanes (4,2), Bilinear (2,3,2); query Ix0, Ix1 x3, Ix2 2x2, IxDyn x3{}; entry points interp_array, interp_array_into, interp, interp_into, interp_scalar", if args.thorough() { ", (3,2,1,2), (4,3,2), spline (5,2,3), Bilinear (3,4,3,2)" } else { ", (3,2,1,2)" }, ", Ix3, IxDyn 2x2 and rank 0; periodic spline over IxDyn data; Bilinear Ix2 and IxDyn data"));
     rep.bounds.push("every data value a symbol; axes and queries distinct exactly representable constants (layout handling does not depend on values)".into());
     rep.outside.push("shared (ArcArray) storage is exercised by C19; layouts of boundary-condition arrays".into());
     rep.assumptions.insert("mode O; equal recorded terms are equal IEEE values".into());
